@@ -94,6 +94,8 @@ fn gen_single_run(check: &str, tag: &str, seed: u64, index: u64, serial_baseline
    let progs = programs_tagged(tag);
    let def = *rng.pick(&progs);
    let variant = if rng.chance(serial_baseline_permille) { Variant::Ser } else { pick_par_variant(&mut rng) };
+   // providers without a concurrent implementation (ternary eqrel): serial baseline only
+   let variant = if def.variants.contains(&variant) { variant } else { Variant::Ser };
    let (gname, mut ops) = gen_input_ops(def, &mut rng);
    ops.insert(0, Op::New { pool: PoolRef::Global });
    ops.push(Op::Run { pool: PoolRef::Global });
